@@ -153,6 +153,7 @@ class P:
                 if not self.accept(","):
                     break
             self.eat(">")
+        self.ngen = len(params)
         self.eat("(")
         while not self.at(")"):
             k0 = 0
@@ -226,7 +227,7 @@ class P:
                 stmts.append(("return", e))
                 continue
             e = self.expr()
-            if self.peek()[1] in ("=", "+=", "-=", "*=", "|=", "&=", "^=", "<<=", ">>="):
+            if self.peek()[1] in ("=", "+=", "-=", "*=", "/=", "%=", "|=", "&=", "^=", "<<=", ">>="):
                 op = self.next()[1]
                 r = self.expr()
                 self.eat(";")
@@ -538,6 +539,7 @@ class Tr:
         self.uconsts = {}   # associated consts of Uint: name -> (type, initialiser AST), inlined at use
         self.sigs = {}      # rust name -> (gname, [param tys], ret ty, pure, mutref_idx)
         self.alias = {}
+        self.ngen = {}      # rust name -> number of const generic parameters (leading usize parameters)
         self.out = []
 
     # ---- expressions: returns (binds, atom, ty)
@@ -991,6 +993,8 @@ class Tr:
                 bs += b
                 atoms.append(paren(x))
             return bs, "(Redc.reduce1_carry %s)" % " ".join(atoms), ("arr", "u64", "N")
+        if name not in self.sigs and name.startswith("algorithms::") and name[12:] in self.sigs:
+            name = name[12:]
         if name not in self.sigs:
             raise Unsupported("call to untranslated function " + name)
         return self.apply(f, name, args, env)
@@ -999,6 +1003,16 @@ class Tr:
         gname, ptys, rty, pure, mutidx, uintm = self.sigs[name]
         bs, atoms = [], (["BITS", "LIMBS"] if uintm else [])
         allargs = ([recv] if recv is not None else []) + list(args)
+        ng = self.ngen.get(name, 0)
+        if ng == 1 and len(allargs) + 1 == len(ptys) and ptys[0] == "usize":
+            # one const generic N, not written at the call: it is the length of the first `[u64; N]` argument
+            for a, pt in zip(allargs, ptys[1:]):
+                if isinstance(pt, tuple) and pt[0] == "arr":
+                    b0, a0, t0 = self.ex(f, a, env, pt)
+                    if b0:
+                        raise Unsupported("array argument with checks")
+                    allargs = [("__atom", "(lenZ %s)" % paren(a0))] + allargs
+                    break
         if len(allargs) != len(ptys):
             raise Unsupported("arity of " + name)
         if uintm and "BITS" not in env:
@@ -1737,7 +1751,9 @@ class Tr:
 
     # ---- one function
     def function(self, rname, gname, src, selfty=None):
-        name, params, ret, body = P(tokenize(src)).fn()
+        pp = P(tokenize(src))
+        name, params, ret, body = pp.fn()
+        self.ngen[rname] = getattr(pp, "ngen", 0)
         f = Fn(self, gname, params, ret, selfty)
 
         def subst(t):
@@ -1949,6 +1965,10 @@ TARGETS = [
     ("src/add.rs", UINT_IMPL, "wrapping_sub", "U.wrapping_sub", "g_wrapping_sub", "uint"),
     ("src/add.rs", UINT_IMPL, "wrapping_neg", "U.wrapping_neg", "g_wrapping_neg", "uint"),
     ("src/add.rs", UINT_IMPL, "abs_diff", "U.abs_diff", "g_abs_diff", "uint"),
+    ("src/modular.rs", UINT_IMPL, "reduce_mod", "U.reduce_mod", "g_reduce_mod", "uint"),
+    ("src/modular.rs", UINT_IMPL, "add_mod", "U.add_mod", "g_add_mod", "uint"),
+    ("src/modular.rs", UINT_IMPL, "mul_redc", "U.mul_redc", "g_u_mul_redc", "uint"),
+    ("src/modular.rs", UINT_IMPL, "square_redc", "U.square_redc", "g_u_square_redc", "uint"),
     ("src/pow.rs", UINT_IMPL, "overflowing_pow", "U.overflowing_pow", "g_overflowing_pow", "uint"),
     ("src/pow.rs", UINT_IMPL, "checked_pow", "U.checked_pow", "g_checked_pow", "uint"),
     ("src/pow.rs", UINT_IMPL, "saturating_pow", "U.saturating_pow", "g_saturating_pow", "uint"),
